@@ -605,6 +605,8 @@ func (s *SourceControl) CoupleErrToFB(couple *bool, reply *bool) error {
 		}
 		err := s.ActiveSource.SetCoupling(c)
 		s.clientUpdates <- ClientUpdate{"TRIGCOUPLING", c}
+		// FB/error coupling lives in the same connection table as the group triggers: tell clients the new table.
+		s.clientUpdates <- ClientUpdate{"GROUPTRIGGER", s.ActiveSource.ComputeGroupTriggerState()}
 		s.queuedResults <- err
 	}
 	err := s.runLaterIfActive(f)
@@ -621,6 +623,8 @@ func (s *SourceControl) CoupleFBToErr(couple *bool, reply *bool) error {
 		}
 		err := s.ActiveSource.SetCoupling(c)
 		s.clientUpdates <- ClientUpdate{"TRIGCOUPLING", c}
+		// FB/error coupling lives in the same connection table as the group triggers: tell clients the new table.
+		s.clientUpdates <- ClientUpdate{"GROUPTRIGGER", s.ActiveSource.ComputeGroupTriggerState()}
 		s.queuedResults <- err
 	}
 	err := s.runLaterIfActive(f)
